@@ -218,8 +218,64 @@ def job(args):
     return q, mode, k, "survived", what, ""
 
 
+def cross_job(args):
+    """a survivor of its own property's rules: does ANY check (all rules, inherited ones included) report it?"""
+    q, rel, lineno, name, mode, k, pid = args
+    from sa.check import Ctx, prop_module
+    from sa import report as R
+    src = (pathlib.Path(ROOT) / rel).read_text(encoding="utf8")
+    r = mutate(src, lineno, name, mode, k)
+    if r is None:
+        return q, mode, k, pid, "skipped"
+    try:
+        mod = prop_module(pid)
+        base = R.evaluate(pid, "quick", mod.SPECS, Ctx(ROOT), R.load_known())
+        out = R.evaluate(pid, "quick", mod.SPECS, Ctx(ROOT, overlay={rel: r[0]}), R.load_known())
+        b = {(i.rule, i.key) for i in base.violations}
+        nv = [i for i in out.violations if (i.rule, i.key) not in b]
+        ne = [e for e in out.errors if e not in base.errors]
+    except Exception as e:
+        nv, ne = [], [f"{type(e).__name__}: {e}"]
+    return q, mode, k, pid, ("reported" if nv else "undecided" if ne else "silent")
+
+
+def cross(infile, modes):
+    """--cross FILE [MODE ...]: second stage over the survivors recorded in FILE"""
+    res = json.loads(pathlib.Path(infile).read_text())
+    from sa.check import Ctx
+    M = Ctx(ROOT).M
+    todo = {}
+    for x in res:
+        if x["status"] == "survived" and (not modes or x["mode"] in modes):
+            todo.setdefault((x["function"], x["mode"], x["k"]), x)
+    jobs = []
+    for (q, mode, k), x in todo.items():
+        f = M.funcs[q]
+        for pid in ALL:
+            jobs.append((q, M.mods[f.mod].rel, f.node.lineno, f.node.name, mode, k, pid))
+    with ProcessPoolExecutor(max_workers=16) as ex:
+        out = list(ex.map(cross_job, jobs, chunksize=4))
+    by = {}
+    for q, mode, k, pid, st in out:
+        by.setdefault((q, mode, k), {})[pid] = st
+    n_sil = 0
+    for key, x in sorted(todo.items()):
+        sts = by.get(key, {})
+        rep = sorted(p for p, s_ in sts.items() if s_ == "reported")
+        und = sorted(p for p, s_ in sts.items() if s_ == "undecided")
+        if not rep and not und:
+            n_sil += 1
+        print(f"{'SILENT  ' if not rep and not und else 'reported' if rep else 'undecid.'} {x['mode']:10} {key[0].replace('reamber.', '')} #{key[2]}: {x['what']}"
+              + (f"   <- {','.join(rep)}" if rep else f"   <- undecided {','.join(und)}" if und else ""))
+    print(f"== cross: {len(todo)} survivors of their own property's rules; {n_sil} silent in every check")
+    return 0
+
+
 def main():
     args = sys.argv[1:]
+    if "--cross" in args:
+        i = args.index("--cross")
+        return cross(args[i + 1], [a for a in args[i + 2:] if a in MODES])
     cap, outf = 3, None
     if "--cap" in args:
         i = args.index("--cap")
